@@ -409,6 +409,8 @@ func vf30UUID(rng *rand.Rand) uuid.UUID {
 	return id
 }
 
+var vf30SampleTick int
+
 func TestVerif_C30(t *testing.T) {
 	r := verifkit.Start(t, "C30", "exploration")
 	defer r.Finish()
@@ -442,6 +444,9 @@ func TestVerif_C30(t *testing.T) {
 	verdict := func(family, mut string, honoured, refOK bool, why string, sig string, desc map[string]any) {
 		r.Eval(1)
 		r.Distinct(fmt.Sprintf("%s|%s|%t|%t|%s|%s", family, mut, honoured, refOK, why, sig))
+		if vf30SampleTick++; vf30SampleTick%4001 == 1 {
+			r.Sample(map[string]any{"family": family, "mutation": mut, "honoured_by_node": honoured, "valid_by_reference": refOK, "reference_reason": why, "case": desc})
+		}
 		r.Count(family+"_cases", 1)
 		switch {
 		case honoured && !refOK:
